@@ -7,6 +7,7 @@
 From Coq Require Import List Bool Arith.
 Import ListNotations.
 From Supp Require Import Model.Client Proofs.ClientProofs.
+#[local] Open Scope list_scope.
 
 (* One server per session under every interleaving (pinned and repaired run() alike): the number
    of server processes launched equals  sessions closed (completed `del self.conn`)
